@@ -3,6 +3,7 @@ CONSTANTS
   Mode = "dir"
   MaxFiles = 0
   GenKinds = {"use", "forward", "import"}
+  GenPre = {"none"}
   GenWhere = {"root", "sub"}
 INVARIANTS Laws Emit
 CHECK_DEADLOCK FALSE
